@@ -1,0 +1,73 @@
+// Copyright 2025 UnoDB contributors
+#ifndef UNODB_DETAIL_VERIF_HOOKS_HPP
+#define UNODB_DETAIL_VERIF_HOOKS_HPP
+
+/// \file
+/// Optional verification hooks.
+///
+/// \ingroup test-internals
+///
+/// When compiled with `-DUNODB_DETAIL_VERIF_HOOKS`, every shared-memory access
+/// of the OLC and QSBR protocols is preceded by a call to a process-global
+/// callback (a scheduling point for an external deterministic scheduler), and
+/// every aligned heap allocation and free is reported to a callback. The hooks
+/// never change behaviour: they call out before an access and return. Without
+/// the define all macros expand to nothing.
+
+#ifdef UNODB_DETAIL_VERIF_HOOKS
+
+#include <atomic>
+#include <cstddef>
+
+namespace unodb::detail::verif {
+
+/// Kind of the shared-memory access that is about to happen.
+enum point : unsigned {
+  lock_load,
+  lock_cas,
+  lock_store,
+  field_load,
+  field_store,
+  qsbr_load,
+  qsbr_rmw,
+  spin
+};
+
+using sched_fn = void (*)(unsigned, const void*) noexcept;
+using mem_fn = void (*)(void*, std::size_t) noexcept;
+
+// NOLINTBEGIN(cppcoreguidelines-avoid-non-const-global-variables)
+inline std::atomic<sched_fn> sched_hook{nullptr};
+inline std::atomic<mem_fn> alloc_hook{nullptr};
+inline std::atomic<mem_fn> free_hook{nullptr};
+// NOLINTEND(cppcoreguidelines-avoid-non-const-global-variables)
+
+inline void sched_point(unsigned kind, const void* addr) noexcept {
+  if (auto* const f = sched_hook.load(std::memory_order_relaxed)) f(kind, addr);
+}
+
+inline void on_alloc(void* ptr, std::size_t size) noexcept {
+  if (auto* const f = alloc_hook.load(std::memory_order_relaxed)) f(ptr, size);
+}
+
+inline void on_free(void* ptr) noexcept {
+  if (auto* const f = free_hook.load(std::memory_order_relaxed)) f(ptr, 0);
+}
+
+}  // namespace unodb::detail::verif
+
+#define UNODB_DETAIL_VERIF_POINT(kind, addr) \
+  ::unodb::detail::verif::sched_point(::unodb::detail::verif::kind, addr)
+#define UNODB_DETAIL_VERIF_ALLOC(ptr, size) \
+  ::unodb::detail::verif::on_alloc(ptr, size)
+#define UNODB_DETAIL_VERIF_FREE(ptr) ::unodb::detail::verif::on_free(ptr)
+
+#else  // UNODB_DETAIL_VERIF_HOOKS
+
+#define UNODB_DETAIL_VERIF_POINT(kind, addr) ((void)0)
+#define UNODB_DETAIL_VERIF_ALLOC(ptr, size) ((void)0)
+#define UNODB_DETAIL_VERIF_FREE(ptr) ((void)0)
+
+#endif  // UNODB_DETAIL_VERIF_HOOKS
+
+#endif  // UNODB_DETAIL_VERIF_HOOKS_HPP
